@@ -51,6 +51,8 @@ struct Core {
     point_idx: u32,
     schedule: Vec<(u32, u8)>,
     held: HashMap<usize, Vec<(usize, bool)>>,
+    /// per thread: is it parked waiting for a WRITE lock (std's RwLock makes new readers wait behind a parked writer)
+    parked_writer: Vec<bool>,
     info: RunInfo,
     done: bool,
     max_points: u32,
@@ -156,6 +158,38 @@ fn hook_point(op: Op, addr: usize) {
     }
     if next != me {
         switch_to(g, me, next);
+        g = lock_core();
+    }
+    // Writer preference of std's RwLock: while the lock is held and a writer is parked on it, a NEW read request waits
+    // too - also one made by a thread that already holds a read lock (the recursive read the std documentation warns
+    // about). Once the lock has been released reader and writer race again, as in std.
+    if matches!(op, Op::RwRead) {
+        loop {
+            let core = g.as_mut().unwrap();
+            let held_now = core.held.get(&addr).map(|v| !v.is_empty()).unwrap_or(false);
+            let writer_parked = (0..core.status.len()).any(|t| t != me && core.parked_writer[t] && core.status[t] == Status::Blocked(addr));
+            if !(held_now && writer_parked) {
+                break;
+            }
+            core.status[me] = Status::Blocked(addr);
+            match next_runnable(core, me) {
+                Some(t) => {
+                    switch_to(g, me, t);
+                    g = lock_core();
+                }
+                None => {
+                    let waiting: Vec<(usize, usize)> = core
+                        .status
+                        .iter()
+                        .enumerate()
+                        .filter_map(|(t, s)| if let Status::Blocked(a) = s { Some((t, *a)) } else { None })
+                        .collect();
+                    let held: Vec<(usize, Vec<(usize, bool)>)> = core.held.iter().filter(|(_, v)| !v.is_empty()).map(|(a, v)| (*a, v.clone())).collect();
+                    let f = Fatal::Deadlock { waiting, held, at_point: core.point_idx };
+                    fatal(core, f);
+                }
+            }
+        }
     }
 }
 
@@ -170,6 +204,7 @@ fn hook_blocked(op: Op, addr: usize) {
         return;
     }
     core.status[me] = Status::Blocked(addr);
+    core.parked_writer[me] = matches!(op, Op::RwWrite);
     match next_runnable(core, me) {
         Some(t) => switch_to(g, me, t),
         None => {
@@ -206,9 +241,10 @@ fn hook_released(_op: Op, addr: usize) {
             v.remove(pos);
         }
     }
-    for s in core.status.iter_mut() {
+    for (t, s) in core.status.iter_mut().enumerate() {
         if *s == Status::Blocked(addr) {
             *s = Status::Runnable;
+            core.parked_writer[t] = false;
         }
     }
 }
@@ -261,6 +297,7 @@ pub fn run(bodies: Vec<Body>, schedule: &[(u32, u8)], max_points: u32, on_fatal:
             point_idx: 0,
             schedule: schedule.to_vec(),
             held: HashMap::new(),
+            parked_writer: vec![false; n],
             info: RunInfo::default(),
             done: n == 0,
             max_points,
